@@ -16,7 +16,7 @@ Streams
   f32    : the model's float32 rounding / successor against NumPy (and, in the oracle, exact arithmetic)
   xst    : histories over extension OBJECTS and HEADERS (Model/C11_State): extensions built from bytes or from a runtime
            object with three codecs (identity, inverse pair, non-inverse normalising pair), get_content / content /
-           size reads, in-place edits, objects shared between headers, header copy / from_header between the four
+           size reads, in-place edits, objects shared between headers, header copy / as_byteswapped / from_header between the four
            NIfTI header classes, images made from headers, explicit offsets, header.write_to and image saves (several
            per object, edits in between); every step observed; oracle = independent reference semantics (XRef)
 """
@@ -81,6 +81,8 @@ THEOREMS = [
     'Nb.C11.lists_independent',
     'Nb.C11.write_plan_ok',
     'Nb.C11.pair_extensions_run_to_eof',
+    'Nb.C11.byteswap_carries_extensions',
+    'Nb.C11.byteswap_orig_counterexample',
 ]
 ASSUMPTIONS = [
     'hand-written Lean model (Model/C11.lean) of the CONTROL FLOW of NiftiExtension.write_to, Nifti1Extensions.write_to/'
@@ -117,7 +119,7 @@ ASSUMPTIONS = [
     'harness subclasses of Nifti1Extension. The header keeps the value last ASSIGNED to vox_offset; re-assigning a value '
     'read back from the field is assumed to store the same value (float32 idempotence; xst offsets are < 2^20).',
 ]
-RULE = ('xst: random histories of 6-30 operations over 1-2 initial headers (4 NIfTI header classes x {<,>}), 1-3 initial extensions (from bytes / from object, 3 codecs, 9 codes), then reads (get_content, content, size, total), in-place edits that extend / replace the object (lengths crossing 16-byte borders), deletions, objects shared into another header, copy, from_header and image construction into any of the 4 classes, explicit vox_offset (0, min, min+16k, min-16, odd, below header, 352, 544), header.write_to, image save + load; always ending with a save of up to two images (one of them twice with an edit in between) and a header-level write; non-trivial when it contains a save; tail16: last extension of exactly 16 bytes (content 0..9) x NIfTI-1/2 x single/pair x {<,>} x 0-2 extensions in '
+RULE = ('xst-systematic: 4 header classes x {<,>} x as_byteswapped(None,<,>) x extension from bytes / from object -> image of the swapped header -> save+load (-> shared-object edit -> save+load) -> header write; xst: random histories of 6-30 operations over 1-2 initial headers (4 NIfTI header classes x {<,>}), 1-3 initial extensions (from bytes / from object, 3 codecs, 9 codes), then reads (get_content, content, size, total), in-place edits that extend / replace the object (lengths crossing 16-byte borders), deletions, objects shared into another header, copy, as_byteswapped(None/</>) (mostly followed by image construction + save + load), from_header and image construction into any of the 4 classes, explicit vox_offset (0, min, min+16k, min-16, odd, below header, 352, 544), header.write_to, image save + load; always ending with a save of up to two images (one of them twice with an edit in between) and a header-level write; non-trivial when it contains a save; tail16: last extension of exactly 16 bytes (content 0..9) x NIfTI-1/2 x single/pair x {<,>} x 0-2 extensions in '
         'front x offset {auto, min, min+16, min+32}; hist: multi-step histories - extensions with a mutable runtime '
         'object (generic bytearray object, CIFTI-2 header, pydicom Dataset) edited IN PLACE after construction / after '
         'a real save+load (content grown or shrunk across 16-byte boundaries, optionally after an earlier size query), '
@@ -506,6 +508,24 @@ def conversion_table():
     return classes, rows
 
 
+def byteswap_table():
+    """header classes whose `as_byteswapped` to the OTHER byte order re-attaches the extension list (shape of the
+    `Nifti1Header.as_byteswapped` override read from the AST; the same-order case is `copy()` in the base method)"""
+    from nibabel import nifti1, wrapstruct
+    N1 = nifti1.Nifti1Header
+    if 'as_byteswapped' not in vars(N1):
+        return []
+    fn = _fn_ast(N1.as_byteswapped)
+    body = [s for s in fn.body if not (isinstance(s, ast.Expr) and isinstance(s.value, ast.Constant))]
+    ok = ([ast.unparse(s) for s in body] == ['out = super().as_byteswapped(endianness)',
+                                             'out.extensions = self.exts_klass(self.extensions)', 'return out'])
+    base = ast.unparse(_fn_ast(wrapstruct.WrapStruct.as_byteswapped))
+    ok = ok and 'if endianness == current:\n        return self.copy()' in base \
+        and 'return self.__class__(wstr_data.tobytes(), endianness, check=False)' in base
+    return [k.__name__ for k in _header_classes()
+            if ok and k.as_byteswapped is N1.as_byteswapped and k.copy is N1.copy and k.__init__ is N1.__init__]
+
+
 def write_to_plan():
     """the calls of NiftiExtension.write_to that decide WHAT is written, in source order"""
     from nibabel import nifti1
@@ -537,6 +557,7 @@ def regen_state():
     getobj = tr.method(_fn_ast(E.get_object), 'obj')
     content = tr.method(_fn_ast(E.content.fget), 'bytes')
     classes, rows = conversion_table()
+    swaps = byteswap_table()
     plan = write_to_plan()
     sig = '{Obj : Type} (mangle : Obj → List Nat) (unmangle : List Nat → Obj) (s : ExtState Obj)'
     L = ['/-! GENERATED by harness/props/c11.py regen() from the working tree of nibabel (nifti1.py, nifti2.py, analyze.py).',
@@ -560,6 +581,11 @@ def regen_state():
          '    (class hierarchy + shape of `Nifti1Header.from_header` / `copy` / `__init__`, `AnalyzeHeader.from_header`) -/',
          'def carriesExt : List (String × String) :=',
          '  [' + ', '.join(f'("{a}", "{b}")' for a, b in rows) + ']', '',
+         '/-- header classes whose `as_byteswapped` to the OTHER byte order keeps the extension list',
+         '    (`Nifti1Header.as_byteswapped` override: `out = super().as_byteswapped(endianness); out.extensions =',
+         '    self.exts_klass(self.extensions); return out`; same order is `copy()` in `WrapStruct.as_byteswapped`) -/',
+         'def byteswapCarries : List String :=',
+         '  [' + ', '.join(f'"{n}"' for n in swaps) + ']', '',
          '/-- `NiftiExtension.write_to`: the size query and the writes, in source order -/',
          'def writeToPlan : List String :=',
          '  [' + ', '.join(f'"{p_}"' for p_ in plan) + ']', '',
@@ -1095,6 +1121,9 @@ def impl_xst(case):
             elif k == 'cp':
                 hdrs.append(hdrs[op[1]].copy())
                 o = 'ok'
+            elif k == 'bs':
+                hdrs.append(hdrs[op[1]].as_byteswapped({'N': None, 'L': '<', 'B': '>'}[op[2]]))
+                o = 'ok'
             elif k == 'fh':
                 klass, _ = _klasses(*XST_CLASSES[op[2]])
                 hdrs.append(klass.header_class.from_header(hdrs[op[1]]))
@@ -1470,6 +1499,12 @@ class XRef:
         if k == 'cp':
             self.hdrs.append(dict(self.hdrs[op[1]], refs=list(self.hdrs[op[1]]['refs']), img=False))
             return 'ok'
+        if k == 'bs':
+            src = self.hdrs[op[1]]
+            other = '>' if NATIVE == '<' else '<'
+            tgt = {'L': '<', 'B': '>'}.get(op[2]) or (other if src['endian'] == NATIVE else NATIVE)
+            self.hdrs.append(dict(src, endian=tgt, refs=list(src['refs']), img=False))
+            return 'ok'
         if k in ('fh', 'im'):
             n = self.convert(op[1], op[2])
             if n is None:
@@ -1551,7 +1586,7 @@ def oracle(case, out):
 def signature(case, what):
     d = case.data
     if d['op'] == 'xst':
-        kinds = sorted({op[0] for op in d['ops']} & {'ed', 'ea', 'go', 'cp', 'fh', 'im', 'sh', 'wh', 'wi', 'so', 'no'})
+        kinds = sorted({op[0] for op in d['ops']} & {'ed', 'ea', 'go', 'cp', 'bs', 'fh', 'im', 'sh', 'wh', 'wi', 'so', 'no'})
         return 'niftiext:history+' + '+'.join(kinds)
     if d['op'] == 'voff':
         need = HDR_SIZE[d['fmt']] + 4 + sum(need_size(n) for n in d['lens'])
@@ -1981,8 +2016,15 @@ def rand_xst_case(rng):
         elif r < 0.54 and n:
             h2 = rng.randrange(len(ref.hdrs))
             emit(['sh', h, rng.randrange(n), h2, rng.randrange(len(ref.hdrs[h2]['refs']) + 1)])
-        elif r < 0.60:
+        elif r < 0.57:
             emit(['cp', h])
+        elif r < 0.62:
+            emit(['bs', h, rng.choice('NNLB')])
+            if rng.random() < 0.7:
+                # the route "save the other byte order through a byte-swapped header"
+                emit(['im', len(ref.hdrs) - 1, rng.choice([ref.hdrs[-1]['cls']] * 3 + classes)])
+                if ref.hdrs[-1]['img']:
+                    emit(['wi', len(ref.hdrs) - 1, '0102030405'])
         elif r < 0.68:
             emit(['fh', h, rng.choice(classes)])
         elif r < 0.80:
@@ -2013,9 +2055,28 @@ def rand_xst_case(rng):
     return mk_xst(ops)
 
 
+def byteswap_route_cases():
+    """systematic: every NIfTI header class x both byte orders x as_byteswapped(None | '<' | '>') x extension from bytes /
+    from a runtime object (edited after the swap: the object is shared), then an image of the same class is made from
+    the swapped header, saved and loaded, and the swapped header itself is written"""
+    out = []
+    for cls in sorted(XST_CLASSES):
+        for e in 'LB':
+            for t in 'NLB':
+                for how in ('nr', 'no'):
+                    ops = [['nh', cls, e], [how, 0, 0, 0, 6, '6869'], ['nr', 0, 1, 1, 40, '01020304050607080900'],
+                           ['bs', 0, t], ['im', 1, cls], ['wi', 2, '0102030405']]
+                    if how == 'no':
+                        ops += [['ea', 1, 0, '2121212121212121212121212121212121'], ['wi', 2, '0102030405']]
+                    ops += [['wh', 1]]
+                    out.append(mk_xst(ops))
+    return out
+
+
 def cases(rng, tier):
     table = _codes_table()
     out = []
+    out.extend(byteswap_route_cases())
     for _ in range({'quick': 1200, 'thorough': 20000, 'search': 4000}[tier]):
         out.append(rand_xst_case(rng))
     # ---- the vox_offset field: float32 rounding / successor, and the offset rule on sizes alone (no bytes)
